@@ -28,6 +28,8 @@ SCHEMA = {
     "n": "num", "i": "int", "s": "str", "u": "str", "b": "bool", "z": "null",
     "arr": "arr:num", "strs": "arr:str", "objs": "arr:obj", "obj": "obj", "nest": "obj", "nas": "nas", "t": "epoch",
     "bools": "arr:bool", "lists": "arr:arr", "tw": "obj",
+    # member names outside ASCII (their UTF-8 bytes include 0x85 and 0xA0, which some classifications take for white space)
+    "citt\u00e0": "int", "\u0432\u044b\u0445\u043e\u0434": "str",
 }
 # (pat / fmt / which are not in SCHEMA: they are only reached through the dedicated argument forms below)
 # unequal objects that feed identical byte streams to a hasher that writes no lengths (see C10): equality must tell them apart
@@ -59,6 +61,8 @@ def gen_record(rng):
     maybe("i", lambda: rng.choice((0, 1, 2, 3, 4, 5, 10)))
     maybe("s", lambda: rng.choice(WORDS))
     maybe("u", lambda: rng.choice(NONASCII))
+    maybe("citt\u00e0", lambda: rng.choice((0, 1, 2, 20121)), 0.6)
+    maybe("\u0432\u044b\u0445\u043e\u0434", lambda: rng.choice(WORDS), 0.6)
     maybe("b", lambda: rng.random() < 0.5)
     maybe("z", lambda: None, 0.5)
     # now and then a list of more than 20 elements over a small domain (many ties): library sorts change algorithm with size
@@ -136,7 +140,9 @@ MACRONAMES = ["m", "f1", "helper", "añadir"]
 REGEXES = ["a", "^a", "b$", "a.c", "[a-c]+", "(a)(b)?", "x|y", "[0-9]+", "(é)", "a*", "\\\\d+", "(", "[", "h(el+)o", "^$",
            # groups that exist but may not take part in a match (optional, alternation): group numbers must not shift
            "(a)?(b)", "(x)|(y)|(a)", "(h)?(e)?(l+)", "([0-9]+)?-?([a-z]+)", "(a)|(b)"]
-REGEX_SUBJECTS = [("(a)?(b)", ["b", "ab", "xb", "a"]), ("(x)|(y)|(a)", ["a", "y", "x", "zya"]), ("(h)?(e)?(l+)", ["hello", "ello", "llo", "hl"]),
+REGEX_SUBJECTS = [("^\\w{1,100}$", ["abc", "a b", "", "x" * 100, "x" * 101, "a_1"]), ("^[\\w.-]{1,64}@[\\w.-]{1,64}$", ["john.doe@example.com", "a@b", "@", "no", "a@" + "b" * 65]),
+                  ("^(\\w{1,40})-(\\w{1,40})$", ["ab-cd", "ab-", "x-y-z"]),
+                  ("(a)?(b)", ["b", "ab", "xb", "a"]), ("(x)|(y)|(a)", ["a", "y", "x", "zya"]), ("(h)?(e)?(l+)", ["hello", "ello", "llo", "hl"]),
                   ("([0-9]+)?-?([a-z]+)", ["12-ab", "ab", "-ab", "7x"]), ("(a)|(b)", ["b", "a", "cb"]), ("(a)(b)?", ["a", "ab", "ba"]),
                   ("h(el+)o", ["hello", "helo", "ho"]), ("((a)|(b))+(c)?", ["ab", "bc", "abc", "c"]), ("(?:a)(b)(?P<n>c)?", ["ab", "abc"]), ("(\u00e9)?(.)", ["\u00e9x", "x"])]
 FORMATS = ["%Y-%m-%d", "%H:%M:%S", "%Y-%m-%dT%H:%M:%S", "%F %T", "%j", "%Y", "%d/%m/%Y %H:%M", "%%", "%Q", "%", "%Y-%m-%d %z",
@@ -339,7 +345,7 @@ class Gen:
             add("format_time", lambda g, sc, d: C("format_time", g("epoch"), self.lit_or_field("fmt", "fmt", sc)))
             add("extract_regex_group", lambda g, sc, d: C("extract_regex_group", g("str"), self.lit_or_field("regex", "pat", sc), g("int")))
             # subjects that do match, with groups that take part and groups that do not, every group number asked for
-            add("extract_regex_group", lambda g, sc, d: (lambda t: C("extract_regex_group", ("lit", r.choice(t[1])), ("lit", t[0]), ("lit", r.choice((0, 1, 2, 3, 4)))))(r.choice(REGEX_SUBJECTS)))
+            add("extract_regex_group", lambda g, sc, d: (lambda t: C("extract_regex_group", ("lit", r.choice(t[1])), ("lit", t[0]), ("lit", r.choice((0, 1, 2, 3, 4)))))(r.choice(REGEX_SUBJECTS if r.random() < 0.15 else REGEX_SUBJECTS[3:])))
         if kind in ("nas", "any", "str"):
             add('"+"', lambda g, sc, d: C(r.choice(('"+"', '"*"')), *[g("nas") for _ in range(r.choice((2, 3)))]))
             add('"-"', lambda g, sc, d: C('"-"', *[g("nas") for _ in range(r.choice((1, 2)))]))
@@ -352,6 +358,7 @@ class Gen:
             add("not", lambda g, sc, d: C("not", g("bool")))
             add("any", lambda g, sc, d: C(r.choice(("any", "all")), g("arr:bool")))
             add("match", lambda g, sc, d: C("match", g("str"), self.lit_or_field("regex", "pat", sc)))
+            add("match", lambda g, sc, d: (lambda t: C("match", ("lit", r.choice(t[1])), ("lit", t[0])))(r.choice(REGEX_SUBJECTS if r.random() < 0.15 else REGEX_SUBJECTS[3:])))
             add("array?", lambda g, sc, d: C(r.choice(("array?", "object?", "string?", "number?", "bool?", "null?", "empty?")), g("any")))
             add('"<"', lambda g, sc, d: C(r.choice(('"<"', '"<="', '">"', '">="', '"="', '"!="')), g("nas"), g("nas")))
         if kind.startswith("arr") or kind == "any":
